@@ -182,7 +182,13 @@ func (z *Decimal) Add(x, y *Decimal) *Decimal {
 		// ±0 + ±0
 		z.acc = Exact
 		z.form = zero
+		// exact zero sum of operands with opposite signs: -0 under ToNegativeInf
+		// (evaluated first: z may be x or y)
+		opp := x.neg != y.neg
 		z.neg = x.neg && y.neg // -0 + -0 == -0
+		if opp && z.mode == ToNegativeInf {
+			z.neg = true
+		}
 		return z
 	}
 
@@ -1384,7 +1390,13 @@ func (z *Decimal) Sub(x, y *Decimal) *Decimal {
 		// ±0 - ±0
 		z.acc = Exact
 		z.form = zero
+		// exact zero difference of operands with like signs: -0 under ToNegativeInf
+		// (evaluated first: z may be x or y)
+		like := x.neg == y.neg
 		z.neg = x.neg && !y.neg // -0 - +0 == -0
+		if like && z.mode == ToNegativeInf {
+			z.neg = true
+		}
 		return z
 	}
 
